@@ -390,6 +390,15 @@ func (e *Env) ident(name string) (Val, error) {
 			}
 		}
 	}
+	if e.fr != nil && e.fr.parent != nil && !e.fr.top {
+		// a clause evaluated inside an inlined function may name the locals of the function it is inlined into
+		pe := *e
+		pe.fr = e.fr.parent
+		pe.names = nil
+		if v, err := pe.ident(name); err == nil {
+			return v, nil
+		}
+	}
 	if e.fr != nil {
 		base := name
 		if i := strings.Index(name, "#"); i >= 0 {
